@@ -10,7 +10,7 @@ import aiortc.rtcrtpreceiver as recvmod
 import aiortc.rtcsctptransport as sctp
 from aiortc.jitterbuffer import JitterBuffer
 from aiortc.rtcrtpreceiver import NackGenerator, StreamStatistics, TimestampMapper
-from aiortc.rtcsctptransport import DataChunk, SackChunk
+from aiortc.rtcsctptransport import DataChunk, ForwardTsnChunk, SackChunk
 from aiortc.rtp import RtpPacket
 
 from sx import api as sx
@@ -112,7 +112,7 @@ def _recv_obs(t, origin, logs):
     return ((t._last_received_tsn - origin) & U32, mis, [list(l) for l in logs])
 
 
-def h_rel_sctp_recv(ctx, layout, k):
+def h_rel_sctp_recv(ctx, layout, k, fwd=False):
     """Receiver (_receive_data_chunk, _mark_received, reassembly, SACK construction)."""
     oa = ctx.int("tsn_origin", 0, U32)
     sa = ctx.int("ssn_origin", 0, U16)
@@ -143,13 +143,20 @@ def h_rel_sctp_recv(ctx, layout, k):
             runs.append((t, origin, log, chunks, sacks))
         n = len(runs[0][3])
         for step in range(k):
-            i = ctx.choice("arr%d" % step, list(range(n)))
+            i = ctx.choice("arr%d" % step, list(range(n + 1 if fwd else n)))
             obs = []
             for t, origin, log, chunks, sacks in runs:
-                c = chunks[i]
-                d = DataChunk(flags=c.flags)
-                d.tsn, d.stream_id, d.stream_seq, d.protocol, d.user_data = c.tsn, c.stream_id, c.stream_seq, c.protocol, c.user_data
-                sx.run(t._receive_data_chunk(d))
+                if i == n:
+                    # FORWARD-TSN abandoning message 0 of the stream (its chunks and stream sequence number)
+                    f = ForwardTsnChunk()
+                    f.cumulative_tsn = (origin + layout[0] - 1) & U32
+                    f.streams = [(1, chunks[0].stream_seq)]
+                    sx.run(t._receive_forward_tsn_chunk(f))
+                else:
+                    c = chunks[i]
+                    d = DataChunk(flags=c.flags)
+                    d.tsn, d.stream_id, d.stream_seq, d.protocol, d.user_data = c.tsn, c.stream_id, c.stream_seq, c.protocol, c.user_data
+                    sx.run(t._receive_data_chunk(d))
                 sx.run(t._send_sack())
                 s = sacks[-1]
                 obs.append(((t._last_received_tsn - origin) & U32, len(t._sack_misordered), list(log), [tuple(g) for g in s.gaps], (s.cumulative_tsn - origin) & U32, len(s.duplicates)))
